@@ -20,6 +20,18 @@ LOCK_FILES = [
     "src/scheduler/unsafe_job.rs", "src/scheduler/sync_future.rs", "src/scheduler/future_job.rs", "src/scheduler/job.rs",
     "src/scheduler/scheduler_thread.rs", "src/pipe.rs", "src/desync.rs",
 ]
+# which units' rely conditions a lock site outside every contract would undermine: (file prefix, lock key or None) -> units.
+# First match wins; a site that matches nothing undermines every unit.
+LOCK_SITE_UNITS = [
+    ("src/pipe.rs", None, ["u_pipe"]),
+    ("src/desync.rs", None, ["u_desync"]),
+    ("src/scheduler/", "core", ["u_queue", "u_fut"]),
+    ("src/scheduler/", "schedule", ["u_queue", "u_pool"]),
+    ("src/scheduler/", "threads", ["u_pool"]), ("src/scheduler/", "max_threads", ["u_pool"]), ("src/scheduler/", "busy", ["u_pool"]),
+    ("src/scheduler/", "busy_rc", ["u_pool"]), ("src/scheduler/", "also_busy", ["u_pool"]), ("src/scheduler/", "is_busy", ["u_pool"]),
+    ("src/scheduler/", "result", ["u_queue", "u_fut"]), ("src/scheduler/", "state", ["u_fut"]), ("src/scheduler/", "0", ["u_queue", "u_fut"]),
+    ("src/scheduler/", "ready_mutex", ["u_queue"]), ("src/scheduler/", "is_finished", ["u_queue"]),
+]
 # functions whose lock sites are knowingly outside every contract (listed as unverified in evidence)
 LOCK_PENDING_FNS = []
 
